@@ -41,7 +41,7 @@ func runC01(r *Run) {
 	r.NotDec = []string{"that the run-time sums match (numeric)", "share<->token rounding (C02)", "failed-operation behaviour (C09)", "interleavings beyond per-operation cancellation", "2^255 overflow (sdk.Int panics, C11)"}
 	r.Assume = []string{"UpdateAssetValue/UpdateAssetDecValue implement checked addition of a signed delta (verified structurally by R2)", "delta calls are the only writers (R1)"}
 	r.rule("C01.R1", "direct writers of the ledger families (staker rows, operator pools, staking asset info, delegation states, undelegation records) are the known set; a new direct writer is reported", 5)
-	r.rule("C01.R2", "guarded arithmetic: the delta appliers change numeric fields only through UpdateAssetValue/UpdateAssetDecValue; those reject a result below zero", 6)
+	r.rule("C01.R2", "guarded arithmetic: the delta appliers change numeric fields only through UpdateAssetValue/UpdateAssetDecValue; those reject a result below zero; the NST decrease caps each subtraction to what is present", 8)
 	r.rule("C01.R3", "delta balance per operation (symbolic cancellation) and no other increaser", 10)
 	r.rule("C01.R4", "withdraw precondition: the withdraw arm negates the amount; delegation requires WithdrawableAmount >= amount before any write", 2)
 
@@ -369,6 +369,63 @@ func runC01(r *Run) {
 		}
 		r.check(okPos && nPos == 2, "C01.R3", "UpdateNSTBalance|positive", ft.v.pos(ft.v.Decl), "a positive NST adjustment credits TotalDeposit and Withdrawable by the adjustment", "positive arm: "+renderTerms(ft.ts))
 		r.check(okNeg, "C01.R3", "UpdateNSTBalance|negative-only-decreases", ft.v.pos(ft.v.Decl), "a negative NST adjustment only subtracts", "the negative arm contains a positive delta: "+renderTerms(ft.ts))
+	}
+	// clamp idiom in the NST decrease path: `rem := a.Sub(X.F); if rem.IsPositive() { a = X.F }` must clamp to the
+	// same quantity it compared against, and the capped amount is what is subtracted.
+	if v := w.View("x/delegation/keeper", "Keeper.UpdateNSTBalance"); v != nil {
+		nClamp := 0
+		var bad []string
+		ast.Inspect(v.Decl.Body, func(n ast.Node) bool {
+			ifs, ok := n.(*ast.IfStmt)
+			if !ok {
+				return true
+			}
+			recv, nm, _, isC := methodCall(ifs.Cond)
+			if !isC || nm != "IsPositive" || v.objOf(recv) == nil {
+				return true
+			}
+			rem := v.objOf(recv)
+			for _, st := range ifs.Body.List {
+				as, isAs := st.(*ast.AssignStmt)
+				if !isAs || len(as.Lhs) != 1 || len(as.Rhs) != 1 || v.objOf(as.Lhs[0]) == nil || !isSelectorChain(as.Rhs[0]) {
+					continue
+				}
+				a := v.objOf(as.Lhs[0])
+				// the latest definition of rem before the if: a.Sub(E2)
+				var e2 ast.Expr
+				ast.Inspect(v.Decl.Body, func(m ast.Node) bool {
+					d, isAs2 := m.(*ast.AssignStmt)
+					if !isAs2 || d.Pos() > ifs.Pos() {
+						return true
+					}
+					for i, l := range d.Lhs {
+						if v.objOf(l) == rem && i < len(d.Rhs) {
+							if r2, n2, a2, c2 := methodCall(d.Rhs[i]); c2 && n2 == "Sub" && v.objOf(r2) == a && len(a2) == 1 {
+								e2 = a2[0]
+							}
+						}
+					}
+					return true
+				})
+				if e2 == nil {
+					continue
+				}
+				nClamp++
+				if exprString(e2) != exprString(as.Rhs[0]) {
+					bad = append(bad, fmt.Sprintf("clamp at %s compares against %s but caps to %s", v.pos(ifs), exprString(e2), exprString(as.Rhs[0])))
+				}
+			}
+			return true
+		})
+		r.check(len(bad) == 0 && nClamp >= 2, "C01.R2", "UpdateNSTBalance|clamps", v.pos(v.Decl), fmt.Sprintf("%d cap-to-what-is-present clamps compare against the quantity they cap to", nClamp), strings.Join(bad, "; ")+" (a slash larger than what is left would drive the figure negative)")
+		// the record's ActualCompletedAmount is reduced by the capped variable
+		okSub := false
+		for _, as := range v.assignmentsToField(v.Decl.Body, "ActualCompletedAmount") {
+			if recv, nm, args, isC := methodCall(as.Rhs[0]); isC && nm == "Sub" && lastField(recv) == "ActualCompletedAmount" && len(args) == 1 && v.objOf(args[0]) != nil {
+				okSub = true
+			}
+		}
+		r.check(okSub, "C01.R2", "UpdateNSTBalance|record-decrease", v.pos(v.Decl), "a pending record is reduced by the capped slash amount", "ActualCompletedAmount is not updated as ACA.Sub(<capped amount>)")
 	}
 	// delegateTo withdrawable guard
 	if v := w.View("x/delegation/keeper", "Keeper.delegateTo"); v != nil {
